@@ -179,6 +179,10 @@ def _np_tensor_models():
         x = as_tensor(it, data)
         if x.ndim != 1 or has_constant != "add":
             raise OutOfSubset("add_constant of this input")
+        # an EMPTY array is refused by the library (it looks for an existing constant column with a max / min reduction first)
+        n0 = x.shape_[0]
+        if (n0 == 0) if isinstance(n0, int) else it.cx.branch(dim_z3(n0) == 0):
+            ops.raise_(ValueError, "zero-size array to reduction operation maximum which has no identity")
         one_col = 0 if prepend else 1
         return STensor((x.shape_[0], 2), lambda idx: z3.If(idx[1] == one_col, z3.RealVal(1), x.elem_real((idx[0],))), "real")
     _np_tensor_models.add_constant = add_constant
@@ -245,6 +249,24 @@ def _np_tensor_models():
                             patterns=[z3.MultiPattern(perm(i), perm(j))]))
         return STensor((z3.simplify(n),), lambda idx: perm(idx[0]), "int")
     SRange._sorted = _sorted_range
+
+    @model(np.column_stack)
+    def m_column_stack(it, tup):
+        """np.column_stack of 1-D arrays of one common length n: the (n, k) matrix whose j-th column is the j-th array (n = 0 included)"""
+        cols = [as_tensor(it, c) for c in tup]
+        if not cols or any(c is None or c.ndim != 1 for c in cols):
+            raise OutOfSubset("np.column_stack of these inputs")
+        n = cols[0].shape_[0]
+        for c in cols[1:]:
+            if T.dim_eq(c.shape_[0], n) is not True and it.cx.branch(dim_z3(c.shape_[0]) != dim_z3(n)):
+                ops.raise_(ValueError, "all the input array dimensions except for the concatenation axis must match exactly")
+
+        def fn(idx):
+            e = cols[-1].elem_real((idx[0],))
+            for j in range(len(cols) - 2, -1, -1):
+                e = z3.If(idx[1] == j, cols[j].elem_real((idx[0],)), e)
+            return e
+        return STensor((n, len(cols)), fn, "real")
 
     @model(np.zeros)
     def m_np_zeros(it, shape, dtype=float, **k):
